@@ -13,7 +13,7 @@ EMACS_ITEMS = {
     "arrow": [b"\x1b[D", b"\x1b[C", b"\x1b[A", b"\x1b[B", b"\x1b[H", b"\x1b[3~", b"\x1b[1;5D"],
     "esc": [b"\x1bb", b"\x1bf", b"\x1bd", b"\x1b\x7f", b"\x1bu", b"\x1bt"], "cx": [b"\x18\x18", b"\x18\x15", b"\x18\x7f"],
     "arg": [b"\x1b2", b"\x1b-", b"\x1b3"], "reader": [b"\x11x", b"\x16\x01", b"\x1d" + b"a", b"\x1b\x1da", b"\x11" + "中".encode(), b"\x16" + "é".encode(), b"\x1d" + "é".encode()],
-    "ctrl": [b"\x01", b"\x05", b"\x0b", b"\x19", b"\x17", b"\x02", b"\x06", b"\x7f", b"\x1f", b"\x14"], "macro": [b"\x0f"], "comp": [b"\t"],
+    "ctrl": [b"\x01", b"\x05", b"\x0b", b"\x19", b"\x17", b"\x02", b"\x06", b"\x7f", b"\x1f", b"\x14"], "macro": [b"\x0f"], "comp": [b"\t", b"fo\t", b"f\t\t", b"foo\tb"],
 }
 VI_ITEMS = {
     "ins": [b"iab\x1bl", b"A c\x1bh", b"ax\x1b0"], "move": [b"h", b"l", b"w", b"b", b"0", b"$", b"e"], "find": [b"fa", b"tb", b"Fa", b";"],
@@ -68,8 +68,8 @@ def pieces(bs, cuts):
     return [p for p in ps if p]
 
 
-def mk_case(cid, mode, acts, hold=False):
-    return {"id": cid, "inputrc": ("set editing-mode vi\n" if mode == "vi" else "") + INPUTRC, "w": 60, "h": 20, "prompt": "> ",
+def mk_case(cid, mode, acts, hold=False, opts=""):
+    return {"id": cid, "inputrc": ("set editing-mode vi\n" if mode == "vi" else "") + INPUTRC + opts, "w": 60, "h": 20, "prompt": "> ",
             "sources": [{"name": "main", "kind": "mem", "lines": ["old one", "older two"]}], "comp": {"cands": CANDS, "byword": True},
             "wrap": "none", "hold": hold, "sessions": [acts]}
 
@@ -95,9 +95,16 @@ def run(rep, tier, seed):
         for _ in range(k):
             bs += rng.choice(items[rng.choice(list(items))])
         bs += b"\r"
-        scripts.append((si, mode, bs))
+        # every run of a script shares one option set: every second script the defaults, the others one library variable
+        # flipped (round-robin over all of them; the ones that change what the bytes mean or how long a key may take are left out)
+        opts = case_options(rng, si, skip=("keyseq-timeout", "enable-bracketed-paste", "bind-tty-special-chars"))
+        if b"\t" in bs and rng.random() < 0.6:
+            # scripts that complete: the variables that change how completion behaves, more often than their turn
+            opts = rng.choice(["set autocomplete on\n", "set show-all-if-ambiguous on\n", "set menu-complete-display-prefix on\n",
+                               "set completion-ignore-case on\n", "set autocomplete on\nset show-all-if-ambiguous on\n", "set skip-completed-text on\n"])
+        scripts.append((si, mode, bs, opts))
     cases, meta = [], {}
-    for (si, mode, bs) in scripts:
+    for (si, mode, bs, opts) in scripts:
         vi = mode == "vi"
         cks = chunkings(bs, vi, rng, nrandom)
         if tier == "quick" and len(cks) > 24:
@@ -105,7 +112,7 @@ def run(rep, tier, seed):
         for ki, cuts in enumerate(cks):
             cid = "s%d.k%d" % (si, ki)
             ps = pieces(bs, cuts)
-            cases.append(mk_case(cid, mode, [keys(p) for p in ps]))
+            cases.append(mk_case(cid, mode, [keys(p) for p in ps], opts=opts))
             offs = [0]
             for p in ps:
                 offs.append(offs[-1] + len(p))
@@ -123,7 +130,7 @@ def run(rep, tier, seed):
             else:
                 acts = [{"k": "waitheld", "n": 1}, {"k": "rel", "n": 99, "h": ""}, keys(bs[:i]), {"k": "sharedread", "h": bs[i:].hex(), "s": "unhold"}]
             offs = []
-            cases.append(mk_case(cid, mode, acts, hold=True))
+            cases.append(mk_case(cid, mode, acts, hold=True, opts=opts))
             meta[cid] = {"sid": si, "mode": mode, "bytes": bs.hex(), "report_at": i, "offs": offs, "kind": "report"}
             if i >= 1:
                 # second form: everything before the cut is read and redisplayed normally, its LAST byte alone in a read of its
@@ -132,7 +139,7 @@ def run(rep, tier, seed):
                 acts2 = ([keys(bs[:i - 1])] if i > 1 else []) + [{"k": "gate"}, {"k": "hold"}, keys(bs[i - 1:i]),
                                                                {"k": "sharedread", "h": bs[i:].hex(), "s": "unhold"}]
                 if i == 1 or splits_ok(bs, [i - 1], vi):
-                    cases.append(mk_case(cid2, mode, acts2, hold=False))
+                    cases.append(mk_case(cid2, mode, acts2, hold=False, opts=opts))
                     meta[cid2] = {"sid": si, "mode": mode, "bytes": bs.hex(), "report_at": i, "report_form": "last-byte-alone", "offs": [], "kind": "report",
                                   "cuts": ([i - 1] if i > 1 else []) + [i]}
     log("C05: %d scripts, %d runs" % (len(scripts), len(cases)))
@@ -194,6 +201,18 @@ def run(rep, tier, seed):
     for fam, (i, ln, raw, viol) in rejected.items():
         m = raw.get("meta", {})
         first = per[fam][0]
+        # a difference must reproduce when the two runs are repeated in isolation (nothing here depends on timing: the reads
+        # are gated; a difference that does not come back is written to the notes, not reported)
+        pair = [c for c in (cmap.get(first[1].get("cid")), cmap.get(raw.get("cid"))) if c]
+        if len(pair) == 2 and ln.get("ev") == "run":
+            by2 = run_harness("session", pair, os.path.join(wd, "confirm-%s" % fam), nproc=1)
+            rets = []
+            for c in pair:
+                r2 = [e for e in by2.get(c["id"], []) if e["ev"] == "return"]
+                rets.append((r2[0]["line"], r2[0]["err"].split(":")[0]) if r2 else None)
+            if rets[0] is not None and rets[0] == rets[1]:
+                rep.notes.append("unconfirmed difference for script %s (%s): did not reproduce in isolation" % (m.get("bytes", ""), json.dumps({k: m.get(k) for k in ("cuts", "report_at")})))
+                continue
         rep.violation("script %s (%s): run %s differs from run %s of the same bytes: %s vs %s" %
                       (bytes.fromhex(m.get("bytes", "")), m.get("mode"), json.dumps({k: m.get(k) for k in ("cuts", "report_at")}),
                        json.dumps({k: first[1]["meta"].get(k) for k in ("cuts", "report_at")}), json.dumps(ln)[:300], json.dumps(first[0])[:300]),
